@@ -17,6 +17,7 @@ func factsC13More(r *Repo) []Fact {
 	out = append(out, c13ForwarderRecovers(r, "convForwarderRecovers", "streamReaderWithConvert"))
 	out = append(out, c13ForwarderRecovers(r, "childForwarderRecovers", "childStreamReader"))
 	out = append(out, c13ErrorTextMemoised(r))
+	out = append(out, c13DrainedTaskErrorChecked(r))
 	return out
 }
 
@@ -299,4 +300,84 @@ func c13ErrorTextMemoised(r *Repo) Fact {
 		where += " (found: " + why + ")"
 	}
 	return boolFact("errorTextMemoised", why != "", where)
+}
+
+// drainedTaskErrorChecked: in runner.run, every place where the loop drains the tasks still in
+// flight — a statement `<d>, err := <tm>.waitAll()` — is followed, in the same block, by
+//
+//	err = <r>.resolveInterruptCompletedTasks(…, <d>)      (a plain assignment to that err)
+//	if err != nil { return nil, err }                        (the very next statement)
+//
+// so the failure of a drained task ends the run with that task's (already wrapped) error.  An
+// `if …, err := …resolveInterruptCompletedTasks(…); …` (a new err that shadows the checked one), a
+// missing check, or a call whose result is discarded give false.  At least two such sites are
+// expected (interrupt raised by a task / interrupt-before-after point).
+func c13DrainedTaskErrorChecked(r *Repo) Fact {
+	cp := r.Pkg("compose")
+	fd, file := cp.Func("runner", "run")
+	if fd == nil || fd.Body == nil {
+		return unknownFact("drainedTaskErrorChecked", "Bool", "false", "compose", "runner.run not found")
+	}
+	sites, good := 0, 0
+	why := ""
+	ast.Inspect(fd.Body, func(n ast.Node) bool {
+		blk, ok := n.(*ast.BlockStmt)
+		if !ok {
+			return true
+		}
+		for i, st := range blk.List {
+			as, ok := st.(*ast.AssignStmt)
+			if !ok || len(as.Lhs) != 2 || len(as.Rhs) != 1 {
+				continue
+			}
+			call, ok := as.Rhs[0].(*ast.CallExpr)
+			if !ok {
+				continue
+			}
+			se, ok := call.Fun.(*ast.SelectorExpr)
+			if !ok || se.Sel.Name != "waitAll" {
+				continue
+			}
+			sites++
+			drained, errName := exprString(as.Lhs[0]), exprString(as.Lhs[1])
+			okSite := false
+			for j := i + 1; j < len(blk.List); j++ {
+				// the error check of waitAll itself may stand in between
+				if is, ok := blk.List[j].(*ast.IfStmt); ok && is.Init == nil && exprString(is.Cond) == errName+"!=nil" {
+					continue
+				}
+				a2, ok := blk.List[j].(*ast.AssignStmt)
+				if !ok || a2.Tok != token.ASSIGN || len(a2.Lhs) != 1 || exprString(a2.Lhs[0]) != errName || len(a2.Rhs) != 1 {
+					break
+				}
+				c2, ok := a2.Rhs[0].(*ast.CallExpr)
+				if !ok || !strings.HasSuffix(exprString(c2.Fun), ".resolveInterruptCompletedTasks") || len(c2.Args) == 0 ||
+					exprString(c2.Args[len(c2.Args)-1]) != drained {
+					break
+				}
+				if j+1 < len(blk.List) {
+					if is, ok := blk.List[j+1].(*ast.IfStmt); ok && is.Init == nil && exprString(is.Cond) == errName+"!=nil" && len(is.Body.List) > 0 {
+						if rs, ok := is.Body.List[len(is.Body.List)-1].(*ast.ReturnStmt); ok && len(rs.Results) == 2 && exprString(rs.Results[1]) == errName {
+							okSite = true
+						}
+					}
+				}
+				break
+			}
+			if okSite {
+				good++
+			} else if why == "" {
+				why = "the drained tasks of `" + drained + "` are not classified into the checked `" + errName + "`"
+			}
+		}
+		return true
+	})
+	if sites == 0 {
+		return unknownFact("drainedTaskErrorChecked", "Bool", "false", "compose/"+file, "no `…, err := ….waitAll()` in runner.run")
+	}
+	where := "compose/" + file + ": runner.run, after every `d, err := tm.waitAll()`: `err = r.resolveInterruptCompletedTasks(…, d)` then `if err != nil { return nil, err }`"
+	if why != "" {
+		where += " (found: " + why + ")"
+	}
+	return boolFact("drainedTaskErrorChecked", good == sites && sites >= 2, where)
 }
